@@ -97,11 +97,23 @@ theorem data_connectAll {idx : Nat} {parent model : String} (l : List (String ×
     obtain ⟨s1, h1, h⟩ := bind_ok h
     rw [ih h, data_connectOne h1]
 
+theorem data_renameStrict {st st' : St} {i : Nat} {p n : String} (h : renameStrict st i p n = Except.ok st') (j : Nat) :
+    dataAt st' j = dataAt st j := by
+  unfold renameStrict at h
+  split at h
+  · cases h
+  · cases h; exact info_updInst _ _ _ _ (fun _ => rfl)
+
+theorem data_assignDefault' (st : St) (i : Nat) (p m : String) (j : Nat) :
+    dataAt (assignDefault st i p m) j = dataAt st j := by
+  unfold assignDefault
+  exact info_updInst _ _ _ _ (fun _ => rfl)
+
 theorem data_rename {st st' : St} {i : Nat} {p n : String} (h : rename st i p n = Except.ok st') (j : Nat) :
     dataAt st' j = dataAt st j := by
   unfold rename at h
   split at h
-  · cases h
+  · cases h; exact data_assignDefault' _ _ _ _ _
   · cases h; exact info_updInst _ _ _ _ (fun _ => rfl)
 
 /-- the info lines do to the data of instance `idx` exactly what `infoFold` says -/
@@ -116,7 +128,7 @@ theorem data_applyInfo {idx : Nat} {parent : String} (l : List InfoStmt) :
     | cname n =>
       unfold applyInfo at h
       obtain ⟨s1, h1, h⟩ := bind_ok h
-      rw [ih h, data_rename h1]
+      rw [ih h, data_renameStrict h1]
       simp only [dataAt, info_updInst_at]
       cases st.insts[idx]? <;> simp [infoOf, infoFold]
     | attr k v =>
